@@ -243,7 +243,7 @@ VOLUME = {   # tier -> (L1 cases, serial, fork, spawn)
     'thorough': (6000, 400, 120, 30),
 }
 L2_VOLUME = {'quick': 24, 'thorough': 250}     # scripted real ProcessExecutor runs (C04, C05, C10, C11)
-L2_PROPS = {'C04': ['worker-limit-exceeded'], 'C05': ['idle-slot', 'dead-not-detected'], 'C11': ['dead-not-detected'], 'C10': []}
+L2_PROPS = {'C04': ['worker-limit-exceeded'], 'C05': ['idle-slot', 'dead-not-detected'], 'C11': ['dead-not-detected'], 'C10': ['started-after-failure']}
 
 
 def nontrivial(case, obs):
@@ -420,6 +420,14 @@ def run(prop, report, tier, seed, replay=None):
                     c['reads'] = [[] for _ in range(c['n'])]
                     c['req'] = [[t, 0] for t in range(c['n'])]
                 l2cases.append(c)
+            if prop == 'C10':
+                # stop at the first failure: independent tasks queue up behind one or two worker slots, the first ones fail (by
+                # an exception or by being killed), and nothing that was still queued may be started once run_tasks raises
+                for mw, nn, kill in ((1, 5, 0.0), (2, 6, 0.0), (1, 4, 1.0)):
+                    l2cases.append(dict(n=nn, types=[1] * nn, specs=[['tuple', []] for _ in range(nn)], reads=[[] for _ in range(nn)],
+                                        behs=(['raise'] * mw + ['ok'] * (nn - mw)) if not kill else ['ok'] * nn,
+                                        req=[[t, 0] for t in range(nn)], storage='none', bust=False, cont=False, runner='l2', max_workers=mw,
+                                        sched_seed=rng.randrange(1 << 30), pre=[], p_kill=kill))
             if prop == 'C05':
                 # more workers allowed than there are CPUs: every one of the independent tasks gets its own worker
                 nn = os.cpu_count() + 2
@@ -477,6 +485,16 @@ def run(prop, report, tier, seed, replay=None):
             dist['runner=l2'] += 1
             dist[f"l2_kills={min(len(script.killed_fids), 3)}"] += 1
             dist[f"outcome={obs['outcome']}"] += 1
+            if not c['cont'] and obs['outcome'] == 'laberror' and 'started-after-failure' in L2_PROPS[prop]:
+                # "once run_tasks has raised no further task is started": no worker process may be started after the
+                # coordinator has been handed the failure it raises for (a queued task may be started in the same wait()
+                # that delivers the failure, before the coordinator sees it)
+                fail_pos = next((i for i, e in enumerate(obs['events']) if e[0] == 'finish' and e[2] is None), None)
+                late = [fid for pos, fid in script.pstarts if fail_pos is not None and pos > fail_pos]
+                if late:
+                    report.violation(f'{prop}:started-after-failure', f'{len(late)} worker process(es) were started after the coordinator had been handed the '
+                                                                      f'failure for which run_tasks raises LabError (continue_on_failure=False)',
+                                     dict(case=c, executor_ops=script.ops[:60]))
             for sig, what in script.violations:
                 if sig in L2_PROPS[prop]:
                     report.violation(f'{prop}:{sig}', what, dict(case=c, executor_ops=script.ops[:60]))
